@@ -175,10 +175,10 @@ Section WithFam.
   Definition dial_ok (m: mname) (d: option did) : Prop :=
     d = None \/ m = dialect_target m.
 
-  Lemma deps_with_wf bld c m fs :
+  Lemma deps_with_wf bld sk c m fs :
     (forall st c' m' st' r, wf st -> (exists f, In f fs /\ c' = f_cls f /\ m' = nested m (f_spec f)) ->
         bld st c' m' = (st', r) -> wf st') ->
-    forall st st' r, wf st -> deps_with bld c m fs st = (st', r) -> wf st'.
+    forall st st' r, wf st -> deps_with bld sk c m fs st = (st', r) -> wf st'.
   Proof.
     induction fs as [|f fs IH]; intros HB st st' r W D; cbn in D.
     - inversion D; subst; exact W.
@@ -187,7 +187,7 @@ Section WithFam.
       { intros s c' m' s' r' Ws (g & Ig & E1 & E2). eapply HB; eauto. exists g. split; [now right|auto]. }
       destruct (get_slot st (f_cls f) (nested m (f_spec f))).
       + eapply IH; eauto.
-      + destruct (Nat.eqb (f_cls f) c && negb (m_top m)).
+      + destruct (sk && Nat.eqb (f_cls f) c && negb (m_top m)).
         * eapply IH; eauto.
         * destruct (bld st (f_cls f) (nested m (f_spec f))) as [s1 [e|]] eqn:B.
           -- inversion D; subst. eapply HB; eauto. exists f. split; [now left|auto].
@@ -209,12 +209,200 @@ Section WithFam.
       + eapply INST; eauto.
       + destruct (unresolved F st c).
         * destruct ap; [eapply INST; eauto|]. inversion B; subst; exact W.
-        * destruct (deps_with (fun st c' m' => build F d5 n st true c' m' None) c m (c_fields (cls F c)) st)
+        * destruct (deps_with (fun st c' m' => build F d5 n st true c' m' None) (match d with None => true | Some _ => false end) c m (c_fields (cls F c)) st)
             as [s1 [e|]] eqn:D.
           -- inversion B; subst. eapply deps_with_wf; [|exact W|exact D].
              intros s c' m' s' r' Ws _ Bn. eapply IH; [exact Ws| |exact Bn]. now left.
           -- eapply INST; [|exact B|now right]. eapply deps_with_wf; [|exact W|exact D].
              intros s c' m' s' r' Ws _ Bn. eapply IH; [exact Ws| |exact Bn]. now left.
+  Qed.
+
+  (* ----------------------------------------------------------------------- *)
+  (* presence of own methods, monotonicity                                    *)
+  (* ----------------------------------------------------------------------- *)
+  Definition present (st: state) (c: cid) (m: mname) : Prop := get_slot st c m <> None.
+  Definition mono (st st': state) : Prop := forall c m, present st c m -> present st' c m.
+
+  Lemma mono_refl st : mono st st.
+  Proof. intros c m H; exact H. Qed.
+  Lemma mono_trans a b c : mono a b -> mono b c -> mono a c.
+  Proof. intros H1 H2 x m P. apply H2, H1, P. Qed.
+
+  Lemma present_set_slot st c m x c' m' : present st c' m' -> present (set_slot st c m x) c' m'.
+  Proof.
+    unfold present. intros P. destruct (skey_eqb (c', m') (c, m)) eqn:K.
+    - apply skey_eqb_eq in K. inversion K; subst. rewrite get_set_slot_same. discriminate.
+    - rewrite get_set_slot_other by exact K. exact P.
+  Qed.
+
+  Lemma install_mono st c m d x st' r : install F st c m d x = (st', r) -> mono st st'.
+  Proof.
+    unfold install. intros I c' m' P.
+    assert (P1: present (if c_dsup (cls F c) then ensure_cache st c m else st) c' m').
+    { destruct (c_dsup (cls F c)); [|exact P]. unfold present. rewrite get_slot_ensure_cache. exact P. }
+    destruct d as [dd|].
+    - destruct (get_cache _ c m); inversion I; subst; [|exact P1].
+      unfold present. rewrite get_slot_cache_store. exact P1.
+    - inversion I; subst. now apply present_set_slot.
+  Qed.
+
+  Lemma install_none_present st c m x st' r : install F st c m None x = (st', r) -> present st' c m.
+  Proof. unfold install. intros I. inversion I; subst. unfold present. rewrite get_set_slot_same. discriminate. Qed.
+
+  (* the positions of method m of class c whose own nested method exists *)
+  Definition nested_present (st: state) (c: cid) (m: mname) : Prop :=
+    forall f, In f (c_fields (cls F c)) -> present st (f_cls f) (nested m (f_spec f)).
+
+  Lemma nested_present_mono st st' c m : mono st st' -> nested_present st c m -> nested_present st' c m.
+  Proof. intros M N f Hf. apply M, N, Hf. Qed.
+
+  (* COMPLETENESS: every compiled body (default or dialect-specific) only calls nested methods that the nested
+     class itself owns - the run-time lookup through the MRO never falls back to an ancestor's code *)
+  Definition complete (st: state) : Prop :=
+    (forall c m, get_slot st c m = Some (Compiled c m None) -> nested_present st c m) /\
+    (forall c m dd, cache_lookup st c m dd = Some (Compiled c (dialect_target m) (Some dd)) -> nested_present st c m).
+
+  Definition inv (st: state) : Prop := wf st /\ complete st.
+
+  (* domain of the theorems: a class with a position of its own type is never specialised (G[int] of a
+     self-referencing generic G): the builders' "class being compiled" shortcut compares names computed from the
+     position's type arguments only *)
+  Definition has_self (c: cid) : Prop := exists g, In g (c_fields (cls F c)) /\ f_cls g = c.
+  Definition selfref_unspec : Prop :=
+    forall c f, In f (c_fields (cls F c)) -> has_self (f_cls f) -> f_spec f = 0.
+  Definition name_ok (c: cid) (m: mname) : Prop := has_self c -> m_spec m = 0.
+
+  Lemma complete_mono_stub st st' :
+    complete st -> mono st st' ->
+    (forall c m, get_slot st' c m = Some (Compiled c m None) -> get_slot st c m = Some (Compiled c m None)) ->
+    (forall c m dd, cache_lookup st' c m dd = Some (Compiled c (dialect_target m) (Some dd)) ->
+                    cache_lookup st c m dd = Some (Compiled c (dialect_target m) (Some dd))) ->
+    complete st'.
+  Proof.
+    intros [C1 C2] M H1 H2. split.
+    - intros c m G. eapply nested_present_mono; [exact M|]. apply C1, H1, G.
+    - intros c m dd G. eapply nested_present_mono; [exact M|]. eapply C2, H2, G.
+  Qed.
+
+  (* installing x for (c, m, d): completeness is kept if x is a stub, or x is the compiled code and all its
+     nested methods are present afterwards *)
+  Lemma install_complete st c m d x st' r :
+    complete st -> install F st c m d x = (st', r) ->
+    ((exists a b, x = Stub a b) \/ (x = Compiled c m d /\ (d = None \/ m = dialect_target m) /\ nested_present st' c m)) ->
+    complete st'.
+  Proof.
+    intros CP I Hx. pose proof (install_mono _ _ _ _ _ _ _ I) as M.
+    destruct CP as [C1 C2]. unfold install in I.
+    set (st1 := if c_dsup (cls F c) then ensure_cache st c m else st) in *.
+    assert (S1: forall c' m', get_slot st1 c' m' = get_slot st c' m').
+    { intros. subst st1. destruct (c_dsup (cls F c)); [apply get_slot_ensure_cache|reflexivity]. }
+    assert (L1: forall c' m' dd, cache_lookup st1 c' m' dd = cache_lookup st c' m' dd).
+    { intros. subst st1. destruct (c_dsup (cls F c)); [apply cache_lookup_ensure_cache|reflexivity]. }
+    destruct d as [dd|].
+    - destruct (get_cache st1 c m) eqn:G; inversion I; subst.
+      + split.
+        * intros c' m' Gs. rewrite get_slot_cache_store, S1 in Gs. eapply nested_present_mono; [exact M|]. now apply C1.
+        * intros c' m' dd' L. apply cache_lookup_cache_store in L as [(K & -> & E)|L].
+          -- destruct Hx as [(a & b & ->)|(-> & [?|Em] & NP)]; [discriminate|discriminate|].
+             assert (Ec: c' = c) by (unfold ckey in K; congruence). subst c'.
+             intros f Hf. specialize (NP f Hf).
+             replace (nested m' (f_spec f)) with (nested m (f_spec f)); [exact NP|].
+             unfold ckey in K. inversion K. unfold nested. congruence.
+          -- rewrite L1 in L. eapply nested_present_mono; [exact M|]. eapply C2; eauto.
+      + split.
+        * intros c' m' Gs. rewrite S1 in Gs. eapply nested_present_mono; [exact M|]. now apply C1.
+        * intros c' m' dd' L. rewrite L1 in L. eapply nested_present_mono; [exact M|]. eapply C2; eauto.
+    - inversion I; subst. split.
+      + intros c' m' Gs. destruct (skey_eqb (c', m') (c, m)) eqn:K.
+        * apply skey_eqb_eq in K. inversion K; subst. rewrite get_set_slot_same in Gs. inversion Gs as [E].
+          destruct Hx as [(a & b & ->)|(_ & _ & NP)]; [discriminate|]. subst x. exact NP.
+        * rewrite get_set_slot_other in Gs by exact K. rewrite S1 in Gs.
+          eapply nested_present_mono; [exact M|]. now apply C1.
+      + intros c' m' dd L. rewrite cache_lookup_set_slot, L1 in L.
+        eapply nested_present_mono; [exact M|]. eapply C2; eauto.
+  Qed.
+
+  (* on-demand compilation of the nested classes: generic induction principle *)
+  Lemma deps_with_inv (P: state -> Prop) bld sk c m fs :
+    (forall st c' m' st' r, P st -> (exists f, In f fs /\ c' = f_cls f /\ m' = nested m (f_spec f)) ->
+        bld st c' m' = (st', r) -> P st' /\ mono st st' /\ (r = None -> present st' c' m')) ->
+    forall st st' r, P st -> deps_with bld sk c m fs st = (st', r) ->
+      P st' /\ mono st st' /\
+      (r = None -> forall f, In f fs -> present st' (f_cls f) (nested m (f_spec f)) \/
+                                        (sk = true /\ f_cls f = c /\ m_top m = false)).
+  Proof.
+    induction fs as [|f fs IH]; intros HB st st' r Ps D; cbn in D.
+    - inversion D; subst. split; [exact Ps|]. split; [apply mono_refl|]. intros _ g [].
+    - assert (HB': forall st c' m' st' r, P st -> (exists f, In f fs /\ c' = f_cls f /\ m' = nested m (f_spec f)) ->
+                bld st c' m' = (st', r) -> P st' /\ mono st st' /\ (r = None -> present st' c' m')).
+      { intros s c' m' s' r' Ws (g & Ig & E1 & E2). eapply HB; eauto. exists g. split; [now right|auto]. }
+      destruct (get_slot st (f_cls f) (nested m (f_spec f))) eqn:G.
+      + destruct (IH HB' _ _ _ Ps D) as (P' & M' & K). split; [exact P'|]. split; [exact M'|].
+        intros Hr g [<-|Hg]; [|now apply K]. left. apply M'. unfold present. rewrite G. discriminate.
+      + destruct (sk && Nat.eqb (f_cls f) c && negb (m_top m)) eqn:SK.
+        * destruct (IH HB' _ _ _ Ps D) as (P' & M' & K). split; [exact P'|]. split; [exact M'|].
+          intros Hr g [<-|Hg]; [|now apply K]. right.
+          apply andb_prop in SK as [SK T]. apply andb_prop in SK as [S1 E]. apply Nat.eqb_eq in E.
+          destruct sk; [|discriminate]. destruct (m_top m); [discriminate|]. auto.
+        * destruct (bld st (f_cls f) (nested m (f_spec f))) as [s1 [e|]] eqn:B.
+          -- inversion D; subst.
+             destruct (HB _ _ _ _ _ Ps (ex_intro _ f (conj (or_introl eq_refl) (conj eq_refl eq_refl))) B) as (P1 & M1 & _).
+             split; [exact P1|]. split; [exact M1|]. discriminate.
+          -- destruct (HB _ _ _ _ _ Ps (ex_intro _ f (conj (or_introl eq_refl) (conj eq_refl eq_refl))) B) as (P1 & M1 & K1).
+             destruct (IH HB' _ _ _ P1 D) as (P' & M' & K). split; [exact P'|]. split; [eapply mono_trans; eauto|].
+             intros Hr g [<-|Hg]; [|now apply K]. left. apply M', K1. reflexivity.
+  Qed.
+
+  Lemma nested_nested m s s' : nested (nested m s) s' = nested m s'.
+  Proof. reflexivity. Qed.
+
+  (* CodeBuilder(...).add_*_method() keeps the invariant, only adds methods, and a successful default build
+     leaves the class with its own method *)
+  Lemma build_inv n : selfref_unspec -> forall st ap c m d st' r,
+    inv st -> dial_ok m d -> name_ok c m -> build F d5 n st ap c m d = (st', r) ->
+    inv st' /\ mono st st' /\ (r = None -> d = None -> present st' c m).
+  Proof.
+    intros SU. induction n as [|n IH]; intros st ap c m d st' r [W CP] DK NK B.
+    - cbn in B. inversion B; subst. split; [now split|]. split; [apply mono_refl|discriminate].
+    - pose proof (build_wf _ _ _ _ _ _ _ _ W DK B) as W'. cbn in B.
+      assert (STUB: forall st2 r2, install F st c m d (Stub c m) = (st2, r2) ->
+                inv st2 /\ mono st st2 /\ (r2 = None -> d = None -> present st2 c m)).
+      { intros st2 r2 I. split; [split|split].
+        - refine (install_wf _ _ _ _ _ _ _ _ W I _ _).
+          + intros _. now left.
+          + intros dd ->. destruct DK as [?|DK]; [discriminate|]. split; [exact DK|now right].
+        - refine (install_complete _ _ _ _ _ _ _ CP I _). left. eauto.
+        - eapply install_mono; eauto.
+        - intros _ ->. eapply install_none_present; eauto. }
+      destruct (c_lazy (cls F c) && ap && (negb d5 || match d with None => true | Some _ => false end)).
+      + now apply STUB.
+      + destruct (unresolved F st c).
+        * destruct ap; [now apply STUB|]. inversion B; subst. split; [now split|]. split; [apply mono_refl|discriminate].
+        * set (sk := match d with None => true | Some _ => false end) in *.
+          destruct (deps_with (fun st c' m' => build F d5 n st true c' m' None) sk c m (c_fields (cls F c)) st)
+            as [s1 r1] eqn:D.
+          assert (DI: inv s1 /\ mono st s1 /\
+                      (r1 = None -> forall f, In f (c_fields (cls F c)) ->
+                         present s1 (f_cls f) (nested m (f_spec f)) \/ (sk = true /\ f_cls f = c /\ m_top m = false))).
+          { eapply (deps_with_inv inv); [|now split|exact D].
+            intros s c' m' s' r' Is (f & Hf & -> & ->) Bn.
+            assert (NKf: name_ok (f_cls f) (nested m (f_spec f))) by (intros HS; cbn; now apply (SU c f Hf)).
+            destruct (IH _ _ _ _ _ _ _ Is (or_introl eq_refl) NKf Bn) as (I' & M' & K').
+            split; [exact I'|]. split; [exact M'|]. intros Hr. now apply K'. }
+          destruct DI as (I1 & M1 & K1). destruct r1 as [e|].
+          -- inversion B; subst. split; [exact I1|]. split; [exact M1|discriminate].
+          -- pose proof (install_mono _ _ _ _ _ _ _ B) as M2.
+             split; [split; [exact W'|]|split; [eapply mono_trans; eauto|]].
+             ++ eapply install_complete; [apply I1|exact B|]. right. split; [reflexivity|]. split; [exact DK|].
+                intros f Hf. destruct (K1 eq_refl f Hf) as [Pf|(Sk & Ec & Tp)]; [now apply M2|].
+                (* the "class being compiled" shortcut: the position names the method being installed *)
+                assert (Dn: d = None) by (destruct d; [discriminate|reflexivity]). subst d.
+                assert (HS: has_self c) by (exists f; split; assumption).
+                assert (E: nested m (f_spec f) = m).
+                { rewrite (SU c f Hf) by (rewrite Ec; exact HS). specialize (NK HS).
+                  destruct m as [p fm tp sp]; cbn in *. subst. reflexivity. }
+                rewrite Ec, E. eapply install_none_present; eauto.
+             ++ intros _ ->. eapply install_none_present; eauto.
   Qed.
 
   (* ----------------------------------------------------------------------- *)
@@ -232,7 +420,7 @@ Section WithFam.
 
   Lemma dispatch_S fuel' st c m d :
     dispatch F d5 (S fuel') st c m d =
-    match get_slot st c m with
+    match mro_slot F st c m with
     | None => (st, DExc EAttrMeth)
     | Some mt =>
         match d with
@@ -253,69 +441,92 @@ Section WithFam.
         end
     end.
   Proof.
-    cbn [dispatch]. destruct (get_slot st c m) as [mt|]; [|reflexivity].
+    cbn [dispatch]. destruct (mro_slot F st c m) as [mt|]; [|reflexivity].
     destruct d as [dd|].
     - reflexivity.
     - destruct mt; reflexivity.
   Qed.
 
+  (* a class that owns the method never sees an ancestor's *)
+  Lemma mro_own st c m x : get_slot st c m = Some x -> mro_slot F st c m = Some x.
+  Proof. unfold mro_slot. intros G. destruct (length F); cbn; now rewrite G. Qed.
+
   Definition code_of (c: cid) (m: mname) (d: option did) : meth :=
     match d with None => Compiled c m None | Some dd => Compiled c (dialect_target m) (Some dd) end.
+  (* where the code a call runs is stored *)
+  Definition stored (st: state) (c: cid) (m: mname) (d: option did) (k: meth) : Prop :=
+    match d with None => get_slot st c m = Some k | Some dd => cache_lookup st c m dd = Some k end.
 
   Lemma dialect_target_idem m : dialect_target (dialect_target m) = dialect_target m.
   Proof. reflexivity. Qed.
 
-  (* whatever the history, a call that reaches a real body reaches THE body generated for
-     (class, method, dialect) - never one generated for another class, method or dialect *)
-  Lemma dispatch_wf fuel : forall st c m d st' r,
-    wf st -> dispatch F d5 fuel st c m d = (st', r) ->
-    wf st' /\ (forall k, r = DRun k -> k = code_of c m d).
+  Lemma cache_lookup_ckey st c a b dd :
+    m_pack a = m_pack b -> m_fmt a = m_fmt b -> cache_lookup st c a dd = cache_lookup st c b dd.
+  Proof. intros E1 E2. unfold cache_lookup, get_cache, ckey. now rewrite E1, E2. Qed.
+
+  (* whatever the history: a call on a class that owns the method reaches THE body generated for (class, method,
+     dialect) - never one generated for another class (e.g. an ancestor), method or dialect *)
+  Lemma dispatch_inv fuel : selfref_unspec -> forall st c m d st' r,
+    inv st -> present st c m -> name_ok c m ->
+    dispatch F d5 fuel st c m d = (st', r) ->
+    inv st' /\ mono st st' /\ (forall k, r = DRun k -> k = code_of c m d /\ stored st' c m d k).
   Proof.
-    induction fuel as [|fuel IH]; intros st c m d st' r W D.
-    - cbn in D. inversion D; subst. split; [exact W|]. intros k H; discriminate.
+    intros SU. induction fuel as [|fuel IH]; intros st c m d st' r I P NM D.
+    - cbn in D. inversion D; subst. split; [exact I|]. split; [apply mono_refl|]. intros k H; discriminate.
     - rewrite dispatch_S in D.
-      assert (RC: forall s x sm s' r', wf s ->
-                 (x = Compiled c (dialect_target sm) d /\ d <> None \/ x = Compiled c sm None /\ d = None \/ x = Stub c sm) ->
-                 (d = None \/ dialect_target sm = dialect_target m /\ sm = dialect_target sm) ->
-                 (d = None -> sm = m) ->
-                 run_cached fuel c d s x = (s', r') ->
-                 wf s' /\ (forall k, r' = DRun k -> k = code_of c m d)).
-      { intros s x sm s' r' Ws Hx Hsm Hm R. destruct Hx as [[-> Dn]|[[-> Dn]| ->]]; cbn [run_cached] in R.
-        - inversion R; subst. split; [exact Ws|]. intros k H; inversion H; subst.
-          destruct d as [dd|]; [|congruence]. destruct Hsm as [?|[E _]]; [discriminate|]. cbn. now rewrite E.
-        - inversion R; subst. split; [exact Ws|]. intros k H; inversion H; subst. now rewrite (Hm eq_refl).
-        - destruct (build F d5 (bfuel F) s false c (stub_target sm) None) as [s1 [e|]] eqn:B.
-          + inversion R; subst. split; [|intros k H; discriminate].
-            eapply build_wf; [exact Ws| |exact B]. now left.
-          + assert (W1: wf s1) by (eapply build_wf; [exact Ws| |exact B]; now left).
-            destruct (IH _ _ _ _ _ _ W1 R) as [W2 K]. split; [exact W2|].
-            intros k H. rewrite (K k H). destruct d as [dd|]; cbn.
-            * destruct Hsm as [?|[E _]]; [discriminate|]. now rewrite E.
-            * now rewrite (Hm eq_refl). }
-      destruct W as [SW CW].
-      destruct (get_slot st c m) as [mt|] eqn:G.
-      2:{ inversion D; subst. split; [now split|]. intros k H; discriminate. }
+      destruct (get_slot st c m) as [mt|] eqn:G; [|exfalso; now apply P].
+      rewrite (mro_own _ _ _ _ G) in D.
+      assert (NK0: forall m0, m_spec m0 = 0 -> name_ok c m0) by (intros m0 E _; exact E).
+      (* a stub found in slot or cache: rebuild the default method for c, re-dispatch *)
+      assert (RC: forall s sm s' r', inv s -> mono st s -> (d = None -> sm = m) ->
+                 (d <> None -> dialect_target sm = dialect_target m /\ sm = dialect_target sm) ->
+                 run_cached fuel c d s (Stub c sm) = (s', r') ->
+                 inv s' /\ mono st s' /\ (forall k, r' = DRun k -> k = code_of c m d /\ stored s' c m d k)).
+      { intros s sm s' r' Is Ms Hn Hd R. cbn [run_cached] in R.
+        destruct (build F d5 (bfuel F) s false c (stub_target sm) None) as [s1 [e|]] eqn:B.
+        - inversion R; subst.
+          destruct (build_inv _ SU _ _ _ _ _ _ _ Is (or_introl eq_refl) (NK0 (stub_target sm) eq_refl) B) as (I1 & M1 & _).
+          split; [exact I1|]. split; [eapply mono_trans; eauto|]. intros k H; discriminate.
+        - destruct (build_inv _ SU _ _ _ _ _ _ _ Is (or_introl eq_refl) (NK0 (stub_target sm) eq_refl) B) as (I1 & M1 & K1).
+          assert (P1: present s1 c sm).
+          { destruct d as [dd|].
+            - destruct (Hd ltac:(discriminate)) as (_ & E). specialize (K1 eq_refl eq_refl).
+              replace (stub_target sm) with sm in K1; [exact K1|]. rewrite E. reflexivity.
+            - rewrite (Hn eq_refl). apply M1, Ms, P. }
+          assert (NM1: name_ok c sm).
+          { destruct d as [dd|]; [apply NK0; destruct (Hd ltac:(discriminate)) as (_ & E); rewrite E; reflexivity|].
+            rewrite (Hn eq_refl). exact NM. }
+          destruct (IH _ _ _ _ _ _ I1 P1 NM1 R) as (I2 & M2 & K). split; [exact I2|].
+          split; [eapply mono_trans; [exact Ms|eapply mono_trans; eauto]|].
+          intros k H. destruct (K k H) as [E S]. destruct d as [dd|].
+          + destruct (Hd ltac:(discriminate)) as (E1 & _). cbn in *. rewrite E1 in E. split; [exact E|].
+            rewrite <- S. apply cache_lookup_ckey; unfold dialect_target in E1; inversion E1; reflexivity.
+          + rewrite (Hn eq_refl) in *. split; assumption. }
+      assert (I0 := I). destruct I as [[SW CW] CP].
       destruct d as [dd|].
-      + destruct (cache_lookup st c m dd) as [x|] eqn:L.
-        * eapply (RC st x (dialect_target m)); [now split| | | |exact D].
-          -- destruct (CW _ _ _ _ L) as [->| ->]; [left; split; [reflexivity|discriminate]|now right; right].
-          -- right. split; reflexivity.
-          -- discriminate.
+      + assert (HIT: forall s x s' r', inv s -> mono st s -> cache_lookup s c m dd = Some x ->
+                   run_cached fuel c (Some dd) s x = (s', r') ->
+                   inv s' /\ mono st s' /\ (forall k, r' = DRun k -> k = code_of c m (Some dd) /\ stored s' c m (Some dd) k)).
+        { intros s x s' r' Is Ms L R. destruct Is as [[SWs CWs] CPs].
+          destruct (CWs _ _ _ _ L) as [->| ->].
+          - cbn in R. inversion R; subst. split; [split; [split|]; assumption|]. split; [exact Ms|].
+            intros k H; inversion H; subst. split; [reflexivity|exact L].
+          - eapply (RC s (dialect_target m)); [split; [split|]; assumption|exact Ms|discriminate| |exact R].
+            intros _. split; reflexivity. }
+        destruct (cache_lookup st c m dd) as [x|] eqn:L.
+        * eapply HIT; [exact I0|apply mono_refl|exact L|exact D].
         * destruct (build F d5 (bfuel F) st true c (dialect_target m) (Some dd)) as [s1 [e|]] eqn:B.
-          -- inversion D; subst. split; [|intros k H; discriminate].
-             refine (build_wf _ _ _ _ _ _ _ _ (conj SW CW) _ B). right. reflexivity.
-          -- assert (W1: wf s1).
-             { refine (build_wf _ _ _ _ _ _ _ _ (conj SW CW) _ B). right. reflexivity. }
+          -- inversion D; subst.
+             destruct (build_inv _ SU _ _ _ _ _ _ _ I0 (or_intror eq_refl) (NK0 (dialect_target m) eq_refl) B) as (I1 & M1 & _).
+             split; [exact I1|]. split; [exact M1|]. intros k H; discriminate.
+          -- destruct (build_inv _ SU _ _ _ _ _ _ _ I0 (or_intror eq_refl) (NK0 (dialect_target m) eq_refl) B) as (I1 & M1 & _).
              destruct (cache_lookup s1 c m dd) as [x|] eqn:L1.
-             ++ eapply (RC s1 x (dialect_target m)); [exact W1| | | |exact D].
-                ** destruct W1 as [_ CW1]. destruct (CW1 _ _ _ _ L1) as [->| ->]; [left; split; [reflexivity|discriminate]|now right; right].
-                ** right. split; reflexivity.
-                ** discriminate.
-             ++ inversion D; subst. split; [exact W1|]. intros k H; discriminate.
-      + eapply (RC st mt m); [now split| | | |exact D].
-        * destruct (SW _ _ _ G) as [->| ->]; [now right; right|right; left; now split].
-        * now left.
-        * reflexivity.
+             ++ eapply HIT; [exact I1|exact M1|exact L1|exact D].
+             ++ inversion D; subst. split; [exact I1|]. split; [exact M1|]. intros k H; discriminate.
+      + destruct (SW _ _ _ G) as [->| ->].
+        * eapply (RC st m); [exact I0|apply mono_refl|reflexivity|intros H; congruence|exact D].
+        * cbn in D. inversion D; subst. split; [exact I0|]. split; [apply mono_refl|].
+          intros k H; inversion H; subst. split; [reflexivity|exact G].
   Qed.
 
   (* ----------------------------------------------------------------------- *)
@@ -381,45 +592,56 @@ Section WithFam.
     end.
   Proof. reflexivity. Qed.
 
-  (* C14 core: in every well-formed state (however it was reached: eager, lazy, postponed, any order of
-     earlier calls) a call that answers, answers [den] - which does not mention the state *)
-  Lemma call_den fuel : forall x st c m d st' o,
-    wf st -> call F d5 fuel x st c m d = (st', o) ->
-    wf st' /\ (forall t, o = Out t -> t = den x c m d).
+  (* C14 core: in every reachable state (however it was reached: eager, lazy, postponed, any order of earlier
+     calls) a call on a class that owns the method answers [den] - which mentions neither the state nor any
+     ancestor of the class *)
+  Lemma call_den fuel : selfref_unspec -> forall x st c m d st' o,
+    inv st -> present st c m -> name_ok c m -> call F d5 fuel x st c m d = (st', o) ->
+    inv st' /\ mono st st' /\ (forall t, o = Out t -> t = den x c m d).
   Proof.
-    induction x as [kids IHk] using vtree_ind'. intros st c m d st' o W C.
+    intros SU. induction x as [kids IHk] using vtree_ind'. intros st c m d st' o I P NM C.
     rewrite call_V in C.
     destruct (dispatch F d5 fuel st c m d) as [st1 r] eqn:D.
-    destruct (dispatch_wf _ _ _ _ _ _ _ W D) as [W1 K].
+    destruct (dispatch_inv _ SU _ _ _ _ _ _ I P NM D) as (I1 & M1 & K).
     destruct r as [k|e|].
-    2:{ inversion C; subst. split; [exact W1|]. intros t H; discriminate. }
-    2:{ inversion C; subst. split; [exact W1|]. intros t H; discriminate. }
-    specialize (K k eq_refl). subst k.
+    2:{ inversion C; subst. split; [exact I1|]. split; [exact M1|]. intros t H; discriminate. }
+    2:{ inversion C; subst. split; [exact I1|]. split; [exact M1|]. intros t H; discriminate. }
+    destruct (K k eq_refl) as [-> ST].
     rewrite den_V.
     set (km := match d with None => m | Some _ => dialect_target m end).
     assert (EK: code_of c m d = Compiled c km d) by (unfold code_of, km; destruct d; reflexivity).
-    rewrite EK in C. clear EK D.
-    (* generalise over the accumulator *)
-    assert (G: forall l, Forall (fun iv => forall st c m d st' o, wf st ->
+    rewrite EK in C, ST.
+    assert (NP: nested_present st1 c km).
+    { destruct I1 as [_ [C1 C2]]. unfold stored in ST. destruct d as [dd|]; subst km.
+      - intros f Hf. apply (C2 _ _ _ ST f Hf).
+      - apply C1, ST. }
+    clear EK D K ST.
+    assert (G: forall l, Forall (fun iv => forall st c m d st' o, inv st -> present st c m -> name_ok c m ->
                        call F d5 fuel (snd iv) st c m d = (st', o) ->
-                       wf st' /\ (forall t, o = Out t -> t = den (snd iv) c m d)) l ->
-               forall s acc s' o', wf s -> go (call F d5 fuel) F c km d l s acc = (s', o') ->
-               wf s' /\ (forall t, o' = Out t -> t = Node c km d (rev acc ++ dk c km d l))).
-    { induction l as [|[i v] r IHr]; intros FA s acc s' o' Ws Gq; cbn in Gq.
-      - inversion Gq; subst. split; [exact Ws|]. intros t H; inversion H; subst. cbn. now rewrite app_nil_r.
+                       inv st' /\ mono st st' /\ (forall t, o = Out t -> t = den (snd iv) c m d)) l ->
+               forall s acc s' o', inv s -> mono st1 s -> go (call F d5 fuel) F c km d l s acc = (s', o') ->
+               inv s' /\ mono st1 s' /\ (forall t, o' = Out t -> t = Node c km d (rev acc ++ dk c km d l))).
+    { induction l as [|[i v] r IHr]; intros FA s acc s' o' Is Ms Gq; cbn in Gq.
+      - inversion Gq; subst. split; [exact Is|]. split; [exact Ms|].
+        intros t H; inversion H; subst. cbn. now rewrite app_nil_r.
       - inversion FA as [|? ? Hv Hr]; subst. cbn [dk].
         destruct (nth_error (c_fields (cls F c)) i) as [f|] eqn:N.
         2:{ eapply IHr; eauto. }
         set (d' := if c_dsup (cls F c) && c_dsup (cls F (f_cls f)) then d else None) in *.
         destruct (call F d5 fuel v s (f_cls f) (nested km (f_spec f)) d') as [s1 o1] eqn:Cv.
-        destruct (Hv _ _ _ _ _ _ Ws Cv) as [Ws1 Hd].
+        pose proof (nth_error_In _ _ N) as Hf.
+        assert (Pf: present s (f_cls f) (nested km (f_spec f))) by (apply Ms, NP, Hf).
+        assert (Nf: name_ok (f_cls f) (nested km (f_spec f))) by (intros HS; cbn; now apply (SU c f Hf)).
+        destruct (Hv _ _ _ _ _ _ Is Pf Nf Cv) as (Is1 & Ms1 & Hd).
         destruct o1 as [t1|e1|].
-        + destruct (IHr Hr _ _ _ _ Ws1 Gq) as [Ws' Ht]. split; [exact Ws'|].
+        + destruct (IHr Hr _ _ _ _ Is1 (mono_trans _ _ _ Ms Ms1) Gq) as (Is' & Ms' & Ht).
+          split; [exact Is'|]. split; [exact Ms'|].
           intros t H. rewrite (Ht t H). cbn [rev]. rewrite <- app_assoc. cbn.
           now rewrite (Hd t1 eq_refl).
-        + inversion Gq; subst. split; [exact Ws1|]. intros t H; discriminate.
-        + inversion Gq; subst. split; [exact Ws1|]. intros t H; discriminate. }
-    destruct (G kids IHk st1 [] st' o W1 C) as [W' Ht]. split; [exact W'|].
+        + inversion Gq; subst. split; [exact Is1|]. split; [eapply mono_trans; eauto|]. intros t H; discriminate.
+        + inversion Gq; subst. split; [exact Is1|]. split; [eapply mono_trans; eauto|]. intros t H; discriminate. }
+    destruct (G kids IHk st1 [] st' o I1 (mono_refl _) C) as (I' & M' & Ht).
+    split; [exact I'|]. split; [eapply mono_trans; eauto|].
     intros t H. rewrite (Ht t H). reflexivity.
   Qed.
 End WithFam.
@@ -434,43 +656,66 @@ Definition sem (F: fam) (o: op) : tr :=
   | Call c m d x => den F x c m d
   end.
 
+(* a public call goes to a method the class owns (after `Define c`: every entry point of its mixins), and public
+   entry points carry no type arguments *)
+Definition op_ok (st: state) (o: op) : Prop :=
+  match o with Call c m _ _ => get_slot st c m <> None /\ m_spec m = 0 | Define _ => True end.
+Fixpoint ok_hist (F: fam) (d5: bool) (fuel: nat) (st: state) (h: list op) : Prop :=
+  match h with
+  | [] => True
+  | o :: r => op_ok st o /\ ok_hist F d5 fuel (fst (step F d5 fuel st o)) r
+  end.
+
 Lemma wf_bind st c : wf st -> wf (bind st c).
 Proof. intros [SW CW]. split; intros c' m'; [apply (SW c' m')|apply (CW c' m')]. Qed.
 
-Lemma define_fmts_wf F d5 fs : forall st c st' r, wf st -> define_fmts F d5 fs st c = (st', r) -> wf st'.
+Lemma inv_st0 F : inv F st0.
+Proof. split; [apply wf_st0|]. split; intros c m; cbn; intros; discriminate. Qed.
+
+Lemma inv_bind F st c : inv F st -> inv F (bind st c).
 Proof.
-  induction fs as [|[fu fp] fs IH]; intros st c st' r W D; cbn [define_fmts] in D.
-  - inversion D; subst; exact W.
-  - destruct (build F d5 (bfuel F) st true c (top_name false fu) None) as [s1 [e|]] eqn:B1.
-    + inversion D; subst. eapply build_wf; [exact W| |exact B1]. now left.
-    + assert (W1: wf s1) by (eapply build_wf; [exact W| |exact B1]; now left).
-      destruct (build F d5 (bfuel F) s1 true c (top_name true fp) None) as [s2 [e|]] eqn:B2.
-      * inversion D; subst. eapply build_wf; [exact W1| |exact B2]. now left.
-      * eapply IH; [|exact D]. eapply build_wf; [exact W1| |exact B2]. now left.
+  intros [W [C1 C2]]. split; [now apply wf_bind|]. split.
+  - intros c' m' G f Hf. apply (C1 c' m' G f Hf).
+  - intros c' m' dd G f Hf. apply (C2 c' m' dd G f Hf).
 Qed.
 
-Lemma step_wf F d5 fuel st o st' out :
-  wf st -> step F d5 fuel st o = (st', out) ->
-  wf st' /\ (forall t, out = Out t -> t = sem F o).
+Lemma define_fmts_inv F d5 (SU: selfref_unspec F) fs : forall st c st' r,
+  inv F st -> define_fmts F d5 fs st c = (st', r) -> inv F st'.
 Proof.
-  intros W S. destruct o as [c|c m d x]; cbn [step] in S.
+  induction fs as [|[fu fp] fs IH]; intros st c st' r I D; cbn [define_fmts] in D.
+  - inversion D; subst; exact I.
+  - assert (NK: forall p f, name_ok F c (top_name p f)) by (intros p f _; reflexivity).
+    destruct (build F d5 (bfuel F) st true c (top_name false fu) None) as [s1 r1] eqn:B1.
+    destruct (build_inv F d5 _ SU _ _ _ _ _ _ _ I (or_introl eq_refl) (NK _ _) B1) as (I1 & _ & _).
+    destruct r1 as [e|]; [inversion D; subst; exact I1|].
+    destruct (build F d5 (bfuel F) s1 true c (top_name true fp) None) as [s2 r2] eqn:B2.
+    destruct (build_inv F d5 _ SU _ _ _ _ _ _ _ I1 (or_introl eq_refl) (NK _ _) B2) as (I2 & _ & _).
+    destruct r2 as [e|]; [inversion D; subst; exact I2|]. eapply IH; eauto.
+Qed.
+
+Lemma step_inv F d5 fuel (SU: selfref_unspec F) st o st' out :
+  inv F st -> op_ok st o -> step F d5 fuel st o = (st', out) ->
+  inv F st' /\ (forall t, out = Out t -> t = sem F o).
+Proof.
+  intros I OK S. destruct o as [c|c m d x]; cbn [step] in S.
   - destruct (define_fmts F d5 (c_fmts (cls F c)) st c) as [s1 [e|]] eqn:D; inversion S; subst.
-    + split; [apply wf_bind; eapply define_fmts_wf; eauto|]. intros t H; discriminate.
-    + split; [apply wf_bind; eapply define_fmts_wf; eauto|]. intros t H; inversion H; reflexivity.
-  - eapply call_den; [exact W|exact S].
+    + split; [apply inv_bind; eapply define_fmts_inv; eauto|]. intros t H; discriminate.
+    + split; [apply inv_bind; eapply define_fmts_inv; eauto|]. intros t H; inversion H; reflexivity.
+  - destruct OK as [P E].
+    destruct (call_den F d5 fuel SU _ _ _ _ _ _ _ I P ltac:(intros _; exact E) S) as (I' & _ & K). now split.
 Qed.
 
-Lemma run_sem F d5 fuel : forall h st i t,
-  wf st -> nth_error (run F d5 fuel st h) i = Some (Out t) ->
+Lemma run_sem F d5 fuel (SU: selfref_unspec F) : forall h st i t,
+  inv F st -> ok_hist F d5 fuel st h -> nth_error (run F d5 fuel st h) i = Some (Out t) ->
   exists o, nth_error h i = Some o /\ t = sem F o.
 Proof.
-  induction h as [|o h IH]; intros st i t W N; cbn [run] in N.
+  induction h as [|o h IH]; intros st i t I OK N; cbn [run] in N.
   - destruct i; discriminate.
-  - destruct (step F d5 fuel st o) as [st' out] eqn:S.
-    destruct (step_wf _ _ _ _ _ _ _ W S) as [W' K].
+  - destruct OK as [Ho Hh]. destruct (step F d5 fuel st o) as [st' out] eqn:S.
+    destruct (step_inv _ _ _ SU _ _ _ _ I Ho S) as [I' K].
     destruct i as [|i]; cbn [nth_error] in N.
     + inversion N; subst. exists o. split; [reflexivity|]. now apply K.
-    + destruct (IH st' i t W' N) as (o' & E & T). exists o'. now split.
+    + cbn in Hh. destruct (IH st' i t I' Hh N) as (o' & E & T). exists o'. now split.
 Qed.
 
 (* two families with the same fields and options, differing (at most) in lazy_compilation *)
@@ -487,29 +732,37 @@ Proof.
   destruct (SS (f_cls f)) as [_ Ed']. rewrite <- Ed'. f_equal; [apply Hv|now apply IHr].
 Qed.
 
-(* C14 (history independence, partial): take the family under test in ANY well-formed state (reached by
-   any definition order, any lazy flags, any earlier calls, even before fix D5) and its twin in any other;
-   whenever both answer the i-th operation, the answers are equal.  (That both DO answer is the subject of
-   the termination theorem and of the _refuted lemmas.) *)
+Lemma selfref_unspec_ext F F' : same_shape F F' -> selfref_unspec F -> selfref_unspec F'.
+Proof.
+  intros SS SU c f Hf (g & Hg & Eg). destruct (SS c) as [Ec _]. destruct (SS (f_cls f)) as [Ef _].
+  rewrite <- Ec in Hf. apply (SU c f Hf). exists g. rewrite Ef. now split.
+Qed.
+
+(* C14 (history independence, partial): take the family under test in ANY reachable state (any definition order,
+   any lazy flags, any earlier calls, even before fix D5), with or without inheritance, and its twin in any other;
+   whenever both answer the i-th operation, the answers are equal.  (That both DO answer is the subject of the
+   termination theorem, of no_cache_attribute_error and of the _refuted lemmas.) *)
 Theorem history_partial F F' d5 d5' fuel fuel' st st' h i t t' :
-  same_shape F F' -> wf st -> wf st' ->
+  same_shape F F' -> selfref_unspec F -> inv F st -> inv F' st' ->
+  ok_hist F d5 fuel st h -> ok_hist F' d5' fuel' st' h ->
   nth_error (run F d5 fuel st h) i = Some (Out t) ->
   nth_error (run F' d5' fuel' st' h) i = Some (Out t') ->
   t = t'.
 Proof.
-  intros SS W W' N N'.
-  destruct (run_sem _ _ _ _ _ _ _ W N) as (o & E & ->).
-  destruct (run_sem _ _ _ _ _ _ _ W' N') as (o' & E' & ->).
+  intros SS SU I I' OK OK' N N'.
+  destruct (run_sem _ _ _ SU _ _ _ _ I OK N) as (o & E & ->).
+  destruct (run_sem _ _ _ (selfref_unspec_ext _ _ SS SU) _ _ _ _ I' OK' N') as (o' & E' & ->).
   rewrite E in E'. inversion E'; subst o'. destruct o; cbn; [reflexivity|]. now apply den_ext.
 Qed.
 
-(* every state reachable from the empty module by class definitions (in any order) and calls is well formed *)
-Lemma reachable_wf F d5 fuel : forall h st, wf st ->
-  wf (fold_left (fun s o => fst (step F d5 fuel s o)) h st).
+(* every state reachable from the empty module by class definitions (in any order) and public calls satisfies the
+   invariant: well formed AND complete *)
+Lemma reachable_inv F d5 fuel (SU: selfref_unspec F) : forall h st, inv F st -> ok_hist F d5 fuel st h ->
+  inv F (fold_left (fun s o => fst (step F d5 fuel s o)) h st).
 Proof.
-  induction h as [|o h IH]; intros st W; cbn [fold_left]; [exact W|].
-  apply IH. destruct (step F d5 fuel st o) as [s out] eqn:S. cbn.
-  eapply step_wf; eauto.
+  induction h as [|o h IH]; intros st I OK; cbn [fold_left]; [exact I|]. destruct OK as [Ho Hh].
+  apply IH; [|exact Hh]. destruct (step F d5 fuel st o) as [s out] eqn:S. cbn.
+  eapply step_inv; eauto.
 Qed.
 
 (* ------------------------------------------------------------------------- *)
@@ -558,16 +811,16 @@ Proof. intros E. unfold unresolved, is_bound. now rewrite E. Qed.
 Section Termination.
   Variable F : fam.
 
-  Lemma deps_with_bound_ncs bld c m fs :
+  Lemma deps_with_bound_ncs bld sk c m fs :
     (forall st c' m' st' r, bld st c' m' = (st', r) ->
         bound st' = bound st /\ (no_cache_stub st -> resolved F st -> no_cache_stub st')) ->
-    forall st st' r, deps_with bld c m fs st = (st', r) ->
+    forall st st' r, deps_with bld sk c m fs st = (st', r) ->
       bound st' = bound st /\ (no_cache_stub st -> resolved F st -> no_cache_stub st').
   Proof.
     intros HB. induction fs as [|f fs IH]; intros st st' r D; cbn in D.
     - inversion D; subst. split; auto.
     - destruct (get_slot st (f_cls f) (nested m (f_spec f))); [now apply (IH _ _ r)|].
-      destruct (Nat.eqb (f_cls f) c && negb (m_top m)); [now apply (IH _ _ r)|].
+      destruct (sk && Nat.eqb (f_cls f) c && negb (m_top m)); [now apply (IH _ _ r)|].
       destruct (bld st (f_cls f) (nested m (f_spec f))) as [s1 [e|]] eqn:B.
       + inversion D; subst. eapply HB; eauto.
       + destruct (HB _ _ _ _ _ B) as [E1 N1]. destruct (IH _ _ _ D) as [E2 N2]. split; [congruence|].
@@ -586,11 +839,11 @@ Section Termination.
         * destruct ap.
           -- split; [eapply install_bound; eauto|]. intros _ R. rewrite R in U. discriminate.
           -- inversion B; subst. split; auto.
-        * destruct (deps_with (fun st c' m' => build F true n st true c' m' None) c m (c_fields (cls F c)) st)
+        * destruct (deps_with (fun st c' m' => build F true n st true c' m' None) (match d with None => true | Some _ => false end) c m (c_fields (cls F c)) st)
             as [s1 [e|]] eqn:D.
           -- inversion B; subst.
-             exact (deps_with_bound_ncs _ _ _ _ (fun st c' m' st' r H => IH st true c' m' None st' r H) _ _ _ D).
-          -- destruct (deps_with_bound_ncs _ _ _ _ (fun st c' m' st' r H => IH st true c' m' None st' r H) _ _ _ D) as [E1 N1].
+             exact (deps_with_bound_ncs _ _ _ _ _ (fun st c' m' st' r H => IH st true c' m' None st' r H) _ _ _ D).
+          -- destruct (deps_with_bound_ncs _ _ _ _ _ (fun st c' m' st' r H => IH st true c' m' None st' r H) _ _ _ D) as [E1 N1].
              split; [rewrite (install_bound _ _ _ _ _ _ _ _ B); exact E1|].
              intros N R. eapply install_ncs; [apply N1; assumption|exact B|]. right. eauto.
   Qed.
@@ -600,27 +853,27 @@ Section Termination.
   Proof.
     destruct n as [|n]; cbn; [discriminate|]. rewrite andb_false_r. cbn.
     destruct (unresolved F st c); [discriminate|].
-    destruct (deps_with _ c m (c_fields (cls F c)) st) as [s1 [e|]]; [discriminate|].
+    destruct (deps_with _ _ c m (c_fields (cls F c)) st) as [s1 [e|]]; [discriminate|].
     unfold install. intros I. inversion I; subst. apply get_set_slot_same.
   Qed.
 
   Lemma dispatch_compiled fuel st c m : get_slot st c m = Some (Compiled c m None) ->
     dispatch F true (S fuel) st c m None = (st, DRun (Compiled c m None)).
-  Proof. intros G. rewrite dispatch_S, G. reflexivity. Qed.
+  Proof. intros G. rewrite dispatch_S, (mro_own F _ _ _ _ G). reflexivity. Qed.
 
   (* After fix D5 a first call needs at most 1 + pending re-dispatch steps: with that much fuel the result
      is never "out of fuel" and more fuel does not change it.  (Hypotheses: the method has no type
      arguments - see lazy_specialisation_diverges -, all class names are bound, and no dialect cache
      holds a stub - which no reachable state after the definitions does.) *)
   Theorem first_call_terminates st c m d fuel :
-    slot_wf st -> no_cache_stub st -> resolved F st -> m_spec m = 0 ->
+    slot_wf st -> no_cache_stub st -> resolved F st -> m_spec m = 0 -> get_slot st c m <> None ->
     1 + pending st c m <= fuel ->
     dispatch F true fuel st c m d = dispatch F true (1 + pending st c m) st c m d /\
     snd (dispatch F true fuel st c m d) <> DOOF.
   Proof.
-    intros SW N R SP LE. unfold pending in *.
-    destruct (get_slot st c m) as [mt|] eqn:G.
-    2:{ destruct fuel as [|f]; [lia|]. cbn [plus]. rewrite !dispatch_S, G. split; [reflexivity|discriminate]. }
+    intros SW N R SP OWN LE. unfold pending in *.
+    destruct (get_slot st c m) as [mt|] eqn:G; [|congruence].
+    pose proof (mro_own F _ _ _ _ G) as GM.
     assert (RCI: forall f1 f2 s x, (forall sc sm, x <> Stub sc sm) ->
                run_cached F true f1 c d s x = run_cached F true f2 c d s x /\ snd (run_cached F true f1 c d s x) <> DOOF).
     { intros f1 f2 s x Hx. destruct x; [exfalso; eapply Hx; eauto|]. cbn. split; [reflexivity|discriminate]. }
@@ -635,7 +888,7 @@ Section Termination.
                                             | None => (st1, DExc EAttrCache) end
                            | (st1, Some e) => (st1, DExc e) end
                  end).
-      { intros f1. rewrite dispatch_S, G. reflexivity. }
+      { intros f1. rewrite dispatch_S, GM. reflexivity. }
       assert (K: forall f1 f2, dispatch F true (S f1) st c m (Some dd) = dispatch F true (S f2) st c m (Some dd) /\
                                snd (dispatch F true (S f1) st c m (Some dd)) <> DOOF).
       { intros f1 f2. rewrite !E. destruct (cache_lookup st c m dd) as [x|] eqn:L.
@@ -650,12 +903,12 @@ Section Termination.
     - destruct mt as [sc sm|kc km kd].
       + destruct (SW _ _ _ G) as [E|E]; [|discriminate]. inversion E; subst sc sm.
         destruct fuel as [|[|f]]; [lia|lia|]. cbn [plus].
-        rewrite (dispatch_S F true (S f)), (dispatch_S F true 1), G. cbn [run_cached]. rewrite (stub_target_id m SP).
+        rewrite (dispatch_S F true (S f)), (dispatch_S F true 1), GM. cbn [run_cached]. rewrite (stub_target_id m SP).
         destruct (build F true (bfuel F) st false c m None) as [s1 [e|]] eqn:B.
         * split; [reflexivity|discriminate].
         * pose proof (build_installs _ _ _ _ _ B) as G1.
           rewrite !dispatch_compiled by exact G1. split; [reflexivity|discriminate].
-      + destruct fuel as [|f]; [lia|]. cbn [plus]. rewrite !dispatch_S, G. cbn. split; [reflexivity|discriminate].
+      + destruct fuel as [|f]; [lia|]. cbn [plus]. rewrite !dispatch_S, GM. cbn. split; [reflexivity|discriminate].
   Qed.
 End Termination.
 
@@ -693,13 +946,13 @@ Section NoCacheError.
   Variable F : fam.
   Variable d5 : bool.
 
-  Lemma deps_with_no_attr bld c m fs :
+  Lemma deps_with_no_attr bld sk c m fs :
     (forall st c' m' st' e, bld st c' m' = (st', Some e) -> e <> EAttrCache) ->
-    forall st st' e, deps_with bld c m fs st = (st', Some e) -> e <> EAttrCache.
+    forall st st' e, deps_with bld sk c m fs st = (st', Some e) -> e <> EAttrCache.
   Proof.
     intros HB. induction fs as [|f fs IH]; intros st st' e D; cbn in D; [discriminate|].
     destruct (get_slot st (f_cls f) (nested m (f_spec f))); [eapply IH; eauto|].
-    destruct (Nat.eqb (f_cls f) c && negb (m_top m)); [eapply IH; eauto|].
+    destruct (sk && Nat.eqb (f_cls f) c && negb (m_top m)); [eapply IH; eauto|].
     destruct (bld st (f_cls f) (nested m (f_spec f))) as [s1 [e1|]] eqn:B.
     - inversion D; subst. eapply HB; eauto.
     - eapply IH; eauto.
@@ -719,7 +972,7 @@ Section NoCacheError.
       + eapply INST; eauto.
       + destruct (unresolved F st c).
         * destruct ap; [eapply INST; eauto|]. inversion B; discriminate.
-        * destruct (deps_with (fun st c' m' => build F d5 n st true c' m' None) c m (c_fields (cls F c)) st)
+        * destruct (deps_with (fun st c' m' => build F d5 n st true c' m' None) (match d with None => true | Some _ => false end) c m (c_fields (cls F c)) st)
             as [s1 [e1|]] eqn:D.
           -- inversion B; subst. eapply deps_with_no_attr; [|exact D].
              intros s c' m' s' e2 Bn. eapply IH; [|exact Bn]. congruence.
@@ -736,7 +989,7 @@ Section NoCacheError.
     destruct (c_lazy (cls F c) && ap && (negb d5 || false)); [eapply INST; eauto|].
     destruct (unresolved F st c).
     - destruct ap; [eapply INST; eauto|discriminate].
-    - destruct (deps_with _ c m (c_fields (cls F c)) st) as [s1 [e1|]]; [discriminate|]. eapply INST; eauto.
+    - destruct (deps_with _ _ c m (c_fields (cls F c)) st) as [s1 [e1|]]; [discriminate|]. eapply INST; eauto.
   Qed.
 
   Lemma cache_lookup_dialect_target st c m dd : cache_lookup st c (dialect_target m) dd = cache_lookup st c m dd.
@@ -753,7 +1006,7 @@ Section NoCacheError.
       destruct (build F d5 (bfuel F) s false c (stub_target sm) None) as [s1 [e1|]] eqn:B.
       - inversion R; subst. eapply build_no_attr; [|exact B]. congruence.
       - eapply IH; eauto. }
-    destruct (get_slot st c m); [|inversion D; discriminate].
+    destruct (mro_slot F st c m); [|inversion D; discriminate].
     destruct d as [dd|]; [|eapply RC; eauto].
     destruct (cache_lookup st c m dd); [eapply RC; eauto|].
     destruct (build F d5 (bfuel F) st true c (dialect_target m) (Some dd)) as [s1 [e1|]] eqn:B.
